@@ -232,6 +232,10 @@ impl AsmParser {
                     self.tok_end - tok.span.offs()
                 };
                 let span = Span::new(SrcOffset(tok.span.offs()), len);
+                // Lines are counted with 16 bits (and memory could not hold more words anyway)
+                if self.line == u16::MAX {
+                    return Err(error::parse_too_long(span, self.src));
+                }
                 self.air.add_stmt(stmt, span);
             } else {
                 if labeled_line {
